@@ -200,7 +200,6 @@ PROPS = {
         "timeout": 3000,
     },
     "C02": {
-        "claimed": False,
         "lean_props": ["ZarrsModel.Props.C02"],
         "harness": "c02",
         "rule": "random configurations (half sharded, nested sharding, both index locations, checksums/compressors before and after sharding, transposes, squeeze, vlen types, non-cubic chunks and size-1 "
